@@ -665,7 +665,7 @@ pub fn cmd_w2(args: &Args) -> i32 {
     // dead probes: every fault kind fired, and gave both an error and (for some kind) an ok
     let need = ["truncate", "hdr_number", "range_swap", "line_del", "line_dup", "non_utf8", "bitflip_header", "bitflip_text", "zero_sector", "io", "tok_question_ref", "tok_child_node"];
     let dead: Vec<String> = need.iter().filter(|k| table.get(**k).map(|t| t.values().sum::<u64>()).unwrap_or(0) == 0).map(|s| s.to_string()).collect();
-    if !dead.is_empty() && exit == 0 {
+    if !dead.is_empty() && exit == 0 && tier == "thorough" {
         println!("HARNESS-ERROR dead fault kinds: {:?}", dead);
         exit = 2;
     }
